@@ -82,6 +82,7 @@ fn dispatch(fam: &str, p: &Params) -> String {
         "ifturi" => ifturi_case(p),
         "iftapply" => iftapply_case(p),
         "gsubnest" => gsubnest_case(p),
+        "cfffd" => cfffd_case(p),
         _ => "bad-request".into(),
     }
 }
@@ -435,6 +436,10 @@ pub fn colr_jobs(thorough: bool) -> Vec<Job> {
         if thorough {
             depths.extend_from_slice(&[1, 2, 32, 10_000, 200_000, 1_000_000]);
         }
+        if *kind == "glyph" || *kind == "compboth" {
+            // below the limit only shallow instances here; the 2^depth cost is timed by `colr_exp_jobs`
+            depths.retain(|d| *d <= 20 || *d >= LIMIT);
+        }
         for d in depths {
             // quick tier: the largest size for every kind, the boundary sizes for every kind
             for cyc in [0, 1] {
@@ -476,6 +481,19 @@ pub fn colr_jobs(thorough: bool) -> Vec<Job> {
                     v.push(job(name, format!("stress colr kind=gradient fmt={fmt} depth={stops} extend={extend} same={same}")));
                 }
             }
+        }
+    }
+    v
+}
+
+/// 2^depth paint visits from a few hundred bytes: nested PaintGlyph (every level defeats the enclosing fill
+/// optimisation and traverses its subtree twice) and PaintComposite whose source and backdrop are the same subtree.
+/// depth 20 must return; depth 40 is the recorded finding (no work budget in the traversal).
+pub fn colr_exp_jobs() -> Vec<(String, usize, String)> {
+    let mut v = vec![];
+    for kind in ["glyph", "compboth"] {
+        for d in [20usize, 40] {
+            v.push((kind.to_string(), d, format!("stress colr kind={kind} depth={d} cyc=0")));
         }
     }
     v
@@ -2308,4 +2326,120 @@ pub fn hintmap_requests(rng: &mut Rng, n: usize) -> Vec<String> {
         out.push(fmt(&ops));
     }
     out
+}
+
+// ------------------------------------------------------------------------------------------------
+// CFF2 FDArray / FDSelect sizes (one hinting subfont per Font DICT)
+// ------------------------------------------------------------------------------------------------
+
+fn cfffd_case(p: &Params) -> String {
+    use super::charstring::{dict_int, index_bytes};
+    let n = p.n("n");
+    let sel = p.s("sel");
+    let fd = p.n("fd");
+    let mut cs: Vec<u8> = vec![];
+    for s in stems_charstring(&[Stem::Pair(20), Stem::GhostBottom, Stem::Pair(30)], 0, 100, 1) {
+        cs.push(s);
+    }
+    for (x, y, op) in [(0, 0, 21u8), (50, 0, 5), (0, 300, 5)] {
+        cs_num(&mut cs, x);
+        cs_num(&mut cs, y);
+        cs.push(op);
+    }
+    let has_sel = sel != "none";
+    let top_len = 6 + 7 + if has_sel { 7 } else { 0 };
+    let mut t: Vec<u8> = vec![2, 0, 5];
+    be16(&mut t, top_len as u16);
+    let gsubrs = index_bytes(true, 1, &[]);
+    let charstrings = index_bytes(true, 4, &[vec![], cs]);
+    let cs_off = 5 + top_len + gsubrs.len();
+    let fd_off = cs_off + charstrings.len();
+    let fd_index_len = if n == 0 { 4 } else { 4 + 1 + 4 * (n + 1) + 11 * n };
+    let sel_off = fd_off + fd_index_len;
+    let fdselect: Vec<u8> = match sel {
+        "0" => vec![0, 0, fd.min(255) as u8],
+        "3" => {
+            let mut v = vec![3];
+            be16(&mut v, 2);
+            be16(&mut v, 0);
+            v.push(0);
+            be16(&mut v, 1);
+            v.push(fd.min(255) as u8);
+            be16(&mut v, 2);
+            v
+        }
+        "4" => {
+            let mut v = vec![4];
+            be32(&mut v, 2);
+            be32(&mut v, 0);
+            be16(&mut v, 0);
+            be32(&mut v, 1);
+            be16(&mut v, fd.min(65535) as u16);
+            be32(&mut v, 2);
+            v
+        }
+        // ranges that do not cover the glyph / descending / huge count
+        "3bad" => {
+            let mut v = vec![3];
+            be16(&mut v, 65535);
+            be16(&mut v, 1);
+            v.push(fd.min(255) as u8);
+            be16(&mut v, 0);
+            v
+        }
+        _ => vec![],
+    };
+    let priv_off = sel_off + fdselect.len();
+    let private = blues_dict(&[6], &[-15, 0, 700, 715]);
+    let mut top: Vec<u8> = vec![];
+    dict_int(&mut top, cs_off as u32);
+    top.push(17);
+    dict_int(&mut top, fd_off as u32);
+    top.extend_from_slice(&[12, 36]);
+    if has_sel {
+        dict_int(&mut top, sel_off as u32);
+        top.extend_from_slice(&[12, 37]);
+    }
+    t.extend_from_slice(&top);
+    t.extend_from_slice(&gsubrs);
+    t.extend_from_slice(&charstrings);
+    let mut font_dict: Vec<u8> = vec![];
+    dict_int(&mut font_dict, private.len() as u32);
+    dict_int(&mut font_dict, priv_off as u32);
+    font_dict.push(18);
+    t.extend_from_slice(&index_bytes(true, 4, &vec![font_dict; n]));
+    t.extend_from_slice(&fdselect);
+    t.extend_from_slice(&private);
+    let mut maxp = vec![0u8; 6];
+    maxp[0..4].copy_from_slice(&0x00005000u32.to_be_bytes());
+    maxp[4..6].copy_from_slice(&2u16.to_be_bytes());
+    let mut hhea = vec![0u8; 36];
+    hhea[0..4].copy_from_slice(&0x00010000u32.to_be_bytes());
+    hhea[34..36].copy_from_slice(&2u16.to_be_bytes());
+    let hmtx = vec![1, 244, 0, 0, 1, 244, 0, 0];
+    let data = sfnt(vec![(*b"CFF2", t), (*b"head", minimal_head(1000, false)), (*b"maxp", maxp), (*b"hhea", hhea), (*b"hmtx", hmtx)]);
+    let Ok(font) = FontRef::new(&data) else { return "font-failed".into() };
+    let mut out = format!("ok bytes={}", data.len());
+    draw_all_engines(&font, 1, &[16.0], &mut out);
+    out
+}
+
+pub fn cfffd_jobs(_thorough: bool) -> Vec<Job> {
+    let name = "stress-cff-fdarray-fdselect-returns-value";
+    let mut v = vec![];
+    for n in [0usize, 1, 2, 255, 256, 257, 65_535, 65_536, 100_000] {
+        for sel in ["none", "0", "3", "4", "3bad"] {
+            let fds: Vec<usize> = vec![0, n.saturating_sub(1), n, 255, 65_535];
+            for fd in fds {
+                if sel == "none" && fd != 0 {
+                    continue;
+                }
+                if n > 60_000 && !(fd == 0 || fd + 1 == n || fd == n) {
+                    continue;
+                }
+                v.push(job(name, format!("stress cfffd n={n} sel={sel} fd={fd}")));
+            }
+        }
+    }
+    v
 }
